@@ -52,5 +52,9 @@ known('C05', 'F15', 'MADEMoG / MixtureOfGaussiansMADE.sample(n, context=None) ra
       {'class': 'MADEMoG', 'context': None, 'symptom': 'AttributeError'})
 known('C18', 'F15', 'MADEMoG.sample(n) without context raises AttributeError instead of returning [n, features]',
       {'class': 'MADEMoG', 'context': None, 'symptom': 'AttributeError'})
+fixed('C20', 'G1', 'a69477f', 'sum_except_batch(arange(3.), 1) returned a scalar: with num_batch_dims >= ndim torch.sum(x, dim=[]) reduced everything', {'function': 'sum_except_batch', 'symptom': 'batch-lost', 'num_batch_dims': 'ndim'})
+fixed('C20', 'G2', '3e70b12', 'gaussian_kde_log_eval raised a dtype mismatch for float64 samples (float32 torch.eye)', {'function': 'gaussian_kde_log_eval', 'symptom': 'dtype-error', 'dtype': 'float64'})
+fixed('C20', 'G3a', '8b73dff', 'merge_leading_dims(zeros(2,0), 1) raised (reshape(-1, 0))', {'function': 'merge_leading_dims', 'symptom': 'empty-trailing-dims-raise'})
+fixed('C20', 'G3b', '8b73dff', 'repeat_rows(zeros(2,0), 3) raised (reshape(-1, 0))', {'function': 'repeat_rows', 'symptom': 'empty-trailing-dims-raise'})
 json.dump(F, open(os.path.join(HERE, 'known_findings.json'), 'w'), indent=1)
 print(len(F), 'entries')
